@@ -5,12 +5,13 @@
 # checks always run against /repo; this path exists to evaluate seeded changes.
 set -u
 d=$(realpath "$1"); shift
+vd=$(dirname "$(realpath "$0")")/..
 wt=$(mktemp -d /tmp/seedrun.XXXXXX)
 git -C /repo worktree add -q --detach "$wt" "${SEED_BASE:-HEAD}" || exit 2
 trap 'git -C /repo worktree remove --force "$wt" >/dev/null 2>&1; rm -rf "$wt"' EXIT
 git -C "$wt" apply "$d/patch.diff" || { echo "patch does not apply"; exit 2; }
 for p in "$@"; do
-  out=$(cd /verif && VERIF_REPO="$wt" ./check "$p" 2>&1); rc=$?
+  out=$(cd "$vd" && VERIF_REPO="$wt" ./check "$p" 2>&1); rc=$?
   echo "== $(basename $d) $p exit=$rc"
   echo "$out" | grep -E "VIOLATION|KNOWN-FINDING|violated:|UNREPRODUCED|MISMATCH|^\[" | cut -c1-260 | head -8
 done
